@@ -31,3 +31,10 @@ static double ref_A_scale(A const *t, double x, float y) { return t->scale(x, y)
 static A *ref_A_self(A *t) { return &t->self(); }
 //REF A::other(A const *,A const *)
 static A const *ref_A_other(A const *t, A const *p) { return t->other(p); }
+// exported only under -promiscuous: public data members and the global trace cell
+//OPTIONAL get_g_trace() : c_fnames,c_string_fnames,c,c_string,c_fnames_fptrs,c_fnames_uniq,c_fnames_nodb,c_true_names
+//REF get_g_trace()
+static int ref_p_94959() { return g_trace; }
+//OPTIONAL set_g_trace(int) : c_fnames,c_string_fnames,c,c_string,c_fnames_fptrs,c_fnames_uniq,c_fnames_nodb,c_true_names
+//REF set_g_trace(int)
+static void ref_p_94877(int v) { g_trace = v; }
